@@ -7,7 +7,7 @@ var flowTexts = map[string][3]string{
 		"every hint output and fresh internal wire created by the two builders and by the bit-decomposition gadgets reaches a constraint-emitting call (AddR1C / AddSparseR1C / AssertIsBoolean / AssertIsEqual / MustBeLessOrEqCst) — none is left free for the prover — and each reviewed source still reaches its reviewed set of sinks with the reviewed strength (raw = the wire itself is constrained, e.g. booleanity of every hinted bit and the recomposition equality in toBinary)",
 		"sufficiency of the emitted constraints (a present but wrong equality passes); that needs the exhaustive small-field sweep, a different technique"},
 	"C12": {"std/math/emulated",
-		"every emulated-arithmetic hint output (quotient, remainder, carries of mul/reduce; inverse, division, sqrt, subtraction padding; generic NewHint* outputs) reaches limb-width enforcement (Rangechecker.Check raw) and/or the deferred identity check (AssertIsEqual through the mulCheck / mvCheck fields) and the multi-commitment (Commit through multicommitter.vars)",
+		"every emulated-arithmetic hint output (quotient, remainder, carries of mul/reduce — the carries only reach the identity, not a width check: known finding F6; inverse, division, sqrt, subtraction padding; generic NewHint* outputs) reaches limb-width enforcement (Rangechecker.Check raw) and/or the deferred identity check (AssertIsEqual through the mulCheck / mvCheck fields) and the multi-commitment (Commit through multicommitter.vars)",
 		"overflow bookkeeping, padding values, the integer semantics of results, sufficiency of the polynomial identity"},
 	"C13": {"std/rangecheck, logderivarg, logderivlookup, logderivprecomp, multicommit",
 		"every limb-decomposition, multiplicity and lookup-result wire reaches the log-derivative equality (AssertIsEqual) and the commitment (Commit via the multicommitter), and recomposition equalities are present",
@@ -40,6 +40,12 @@ func init() {
 			min := map[string]int{"C05": 25, "C12": 5, "C13": 4, "C14": 7, "C16": 50, "C17": 1, "C19": 4}[id]
 			RunFlow(p, r, e, id, pkgScope(flowAreas[id]...), min)
 			RunHashKill(p, r, pkgScope(flowAreas[id]...))
+			if id == "C12" {
+				r.Engines = append(r.Engines, "emuwidth(EMU-WIDTH)")
+				r.Explanation += " EMU-WIDTH (intrinsic): every group of limbs that std/math/emulated slices out of a hint result is itself (not merely a value computed from it) range-checked or asserted boolean, in the function or at every same-package call site the group is returned to; unconstrained limb groups are arbitrary native field elements, for which the random-point polynomial identity holds only modulo the native field."
+				RunEmuWidth(p, r, e)
+				r.RequireMin("EMU-WIDTH", 8)
+			}
 			r.RequireMin("FLOW-REF", min)
 		})
 	}
